@@ -316,9 +316,12 @@ def main(tier, seed):
     except Exception: rep.error('C03 agree: ' + traceback.format_exc()[-2000:])
     try: explain(rep, tier, seed)
     except Exception: rep.error('C03 explain: ' + traceback.format_exc()[-2000:])
+    extra_functions = []
+    from props import errpath
     files = ['beartype/_check/checkmake.py', 'beartype/_data/check/code/func/datacodefunccheck.py', 'beartype/_check/error/errmain.py', 'beartype/_check/cls/hint/tree/hinttreeerror.py',
              'beartype/_check/error/_errmap.py', 'beartype/door/_func/doorfunc.py']
     rep.functions = [f'{p}@{report.src_hash(p)}' for p in files]
+    errpath.safe(errpath.add_enumerators, rep, 'C03.errpath')
     from pyvc import model as M
     rep.trusted = ['pyvc', 'z3 5.1 / cvc5'] + M.ASSUMED_SEMANTICS
     rep.assumptions = ['TypeHint.is_bearable / die_if_unbearable delegate to the door functions (exercised in the replay and in the bounded part)',
